@@ -144,20 +144,26 @@ def make_design(kind: str, w: int, chain, nsel: int, arrays: bool = True):
     return {"bundles": bdefs, "modules": [top], "top": "X", "lenient_bounds": True}
 
 
-def judge_case(rec, kind: str, w: int, chain, sample=False, peek=True):
-    """`peek`: ask the expression for its width before elaboration (the outcome must not depend on having looked)."""
+def judge_case(rec, kind: str, w: int, chain, sample=False, peek=True, w_before=None):
+    """`peek`: ask the expression for its width before elaboration (the outcome must not depend on having looked).
+    `w_before`: the parent's signals first have the widths of a parent of width `w_before`; the expression is created (and, with
+    `peek`, looked at) then, and the signals are edited to their final widths before the design is elaborated: the design that
+    counts is the final one."""
     import hdl21 as h
 
     sel, cls = py_select(w, chain)
-    key = (kind, w, tuple(tuple(i) if isinstance(i, list) else i for i in chain), peek)
+    key = (kind, w, tuple(tuple(i) if isinstance(i, list) else i for i in chain), peek, w_before)
     trivial = all((not isinstance(i, int)) and i[0] is None and i[1] is None and i[2] in (None, 1) for i in chain)
     rec.case(key=str(key), nontrivial=not trivial,
              sample={"parent": kind, "width": w, "index_chain": chain, "python_selects": sel, "class": cls} if sample else None)
     rec.hist("cases_by_parent", kind)
     rec.hist("cases_by_class", cls)
-    case = {"kind": "index", "parent": kind, "w": w, "chain": chain, "peek": peek}
+    case = {"kind": "index", "parent": kind, "w": w, "chain": chain, "peek": peek, "w_before": w_before}
+    if w_before is not None:
+        rec.count("history.width-edited")
     rec.count("driver.width-asked-first" if peek else "driver.width-not-asked")
-    desc = ("" if peek else "(width not asked before elaboration) ") + f"{kind}(w={w})" + "".join(f"[{i}]" if isinstance(i, int) else "[" + ":".join("" if x is None else str(x) for x in i) + "]" for i in chain)
+    desc = ("" if peek else "(width not asked before elaboration) ") + (f"(parent width {w_before} when the expression was created"
+            f"{' and looked at' if peek else ''}, then edited) " if w_before is not None else "") + f"{kind}(w={w})" + "".join(f"[{i}]" if isinstance(i, int) else "[" + ":".join("" if x is None else str(x) for x in i) + "]" for i in chain)
     nsel = len(sel) if sel else 1
     design = make_design(kind, w, chain, nsel)
     stage = "create"
@@ -167,9 +173,21 @@ def judge_case(rec, kind: str, w: int, chain, sample=False, peek=True):
         built.uid = f"_{next(build._counter)}"
         mb = build.ModBuilder(design, design["modules"][0], built)
         mb.declare()
+        final_widths = {}
+        if w_before is not None:
+            for name, wb in parent_expr(kind, w_before)[1]:
+                final_widths[name] = mb.attrs[name].width
+                mb.attrs[name].width = wb
         mb.connect_all()  # creation of the Slice objects
         conn = mb.insts["d"].conns["p"]
         stage = "width"
+        if w_before is not None:
+            try:
+                _ = conn.width if peek and hasattr(conn, "width") else None
+            except Exception:
+                pass  # (not in range for the earlier width: the designer shrugs and fixes the width)
+            for name, wf in final_widths.items():
+                mb.attrs[name].width = wf
         got_w = conn.width if peek and hasattr(conn, "width") else None
         if got_w is not None and sel is not None and got_w != len(sel):
             rec.violation("reported-width-wrong", f"{desc}.width == {got_w}, Python selects {len(sel)} bit(s)", case=case,
@@ -288,6 +306,10 @@ def run(ctx, rec):
         judge_case(rec, kind, w, chain, sample=(k % 1500 == 7))
         if k % 5 == 0 or (kind.startswith("PortRef") and k % 2 == 0):
             judge_case(rec, kind, w, chain, peek=False)
+        if k % 4 == 1 and kind in ("Signal", "Slice", "Concat2") and w >= 2:
+            # the same final design, reached by editing signal widths after the expression was created (and looked at)
+            wb = [x for x in range(2, w + 4) if x != w][(k // 4) % (w + 1)]
+            judge_case(rec, kind, w, chain, peek=(k % 8 == 1), w_before=wb)
     if not ctx.quick and ctx.shard == 0:
         from .. import suite
 
@@ -303,7 +325,7 @@ def shards(ctx):
 def replay(ctx, rec, case):
     slicemon.attach(rec)
     if case.get("kind") == "index":
-        judge_case(rec, case["parent"], case["w"], case["chain"], sample=True, peek=case.get("peek", True))
+        judge_case(rec, case["parent"], case["w"], case["chain"], sample=True, peek=case.get("peek", True), w_before=case.get("w_before"))
     elif case.get("kind") == "width":
         judge_case(rec, case.get("parent", "Signal"), case["pw"], [case["index"]], sample=True)
     else:
